@@ -139,6 +139,8 @@ struct FLedger {
     seen_ip: BTreeSet<u64>,
     seen_node: BTreeSet<u64>,
     seen_total: bool,
+    /// when the previous datagram of a node id was put to the node stage (timed quotas)
+    last_node: std::collections::BTreeMap<u64, Instant>,
 }
 
 struct Sweeper {
@@ -419,7 +421,24 @@ impl LimiterRunner {
         let nq = cfg.quotas.map(|q| qmode(&q[1])).unwrap_or(QMode::Absent);
         let excess = match nq {
             QMode::Always => !self.ledger.seen_node.insert(ni),
-            QMode::Other => return,
+            QMode::Other => {
+                // a timed quota: a sender whose previous datagram lies at least a whole replenishing period
+                // back (or that never sent) has its full allowance - its datagram is within the quota
+                let period = cfg.quotas.and_then(|q| q[1]).and_then(|(_, p)| dur(p));
+                let prev = self.ledger.last_node.insert(ni, Instant::now());
+                let full = match (prev, period) {
+                    (None, _) => true,
+                    (Some(t), Some(p)) => before.duration_since(t) >= p,
+                    _ => false,
+                };
+                if full && cfg.max_nodes.is_none() {
+                    stats.bump("lf.node.timed-conforming");
+                    if !pass {
+                        out.push(format!("!MON C18 conforming-refused stage=node node={} ip={} (a whole period after its previous datagram)", ni, ipi));
+                    }
+                }
+                return;
+            }
             _ => false,
         };
         if excess {
@@ -1151,6 +1170,30 @@ fn gen_filter_case(rng: &mut Rng, thorough: bool, stats: &mut Stats) -> Vec<Stri
             ops.push(format!("lff {} {} {}", now, i, 60 + i));
             ops.push(format!("lff {} {} {}", now, i, 60 + i));
             ops.push(format!("lfi {} {}", now, i));
+        }
+        return ops;
+    }
+    if rng.chance(1, 10) {
+        // directed: a timed per-node quota (2 per 60 ms); one sender, each datagram a whole period after
+        // the one before - from a permitted address (exempt from the address stage only), from an
+        // ordinary one, with or without other traffic in between
+        stats.bump("gen.filter.timed-node-quota");
+        ops.clear();
+        ops.push(format!("lfnew 1 {}/2:60000000/{} x x {}", quota_txt(Some(NEVER)), quota_txt(Some(NEVER)), LONG_BAN_NS));
+        let permitted = rng.chance(2, 3);
+        if permitted {
+            ops.push("lfpi 0".into());
+        }
+        let other = rng.chance(1, 3);
+        for _ in 0..rng.range(4, 7) {
+            ops.push(format!("lfi {} 0", now));
+            ops.push(format!("lff {} 0 0", now));
+            if other {
+                ops.push(format!("lfi {} 1", now));
+                ops.push(format!("lff {} 1 1", now));
+            }
+            ops.push(format!("lfz {} 80", now));
+            now += 80_000_000;
         }
         return ops;
     }
